@@ -84,18 +84,8 @@ def _flat_and(g):
 def _covers(update, mutation):
     """the update executes whenever the mutation does: every guard of the update is a guard of the mutation, or is
     the negated exit condition of a chain one of whose arms the mutation sits in."""
-    mg = {(simp(g), p) for g, p in mutation.guards}
-    for g, p in update.guards:
-        g = simp(g)
-        if (g, p) in mg:
-            continue
-        if not p:
-            # not (a and b and ..): implied when the mutation's path falsifies one conjunct
-            parts = _flat_and(g)
-            if any((x[2], True) in mg if (x[0] == "unop" and x[1] == "Not") else (x, False) in mg for x in parts):
-                continue
-        return False
-    return True
+    from ..valueflow import guards_imply
+    return guards_imply(mutation.guards, update.guards)
 
 
 def _r1(ctx, pkg):
@@ -151,43 +141,45 @@ def _r2(ctx, pkg):
     reac = simp(a.value[3][0])
     ALLOWED = ("attr", SELF, "_allowed_species")
 
+    def all_test(x):
+        """+1 for all([rp in self._allowed_species for rp in reactants + products]), -1 for its negation written
+        any([rp not in self._allowed_species for ..]) (the parser's canonical form of `not all(..)`), else 0"""
+        for fn_, op_, sign in (("all", "In", 1), ("any", "NotIn", -1)):
+            b = match(("call", ("global", fn_), (V("c"),), ()), x)
+            if not b:
+                continue
+            m = as_map(b["c"])
+            if not m:
+                continue
+            bv, body, base, ifs = m
+            want_base = ("binop", "Add", ("attr", reac, "reactants"), ("attr", reac, "products"))
+            if body == ("cmp", (op_,), (bv, ALLOWED)) and not ifs and base in (want_base, ("binop", "Add", want_base[3], want_base[2])):
+                return sign
+        return 0
+
     def is_all_test(x):
-        """all([rp in self._allowed_species for rp in reaction.reactants + reaction.products])"""
-        b = match(("call", ("global", "all"), (V("c"),), ()), x)
-        if not b:
-            return False
-        m = as_map(b["c"])
-        if not m:
-            return False
-        bv, body, base, ifs = m
-        want_base = ("binop", "Add", ("attr", reac, "reactants"), ("attr", reac, "products"))
-        return body == ("cmp", ("In",), (bv, ALLOWED)) and not ifs and base in (want_base, ("binop", "Add", want_base[3], want_base[2]))
+        return all_test(x) != 0
     dominated = False
     detail = ""
 
     def only_allowed(x):
         names = [y for y in walk(x) if isinstance(y, tuple) and len(y) == 3 and y[0] == "attr" and y[1] == SELF]
         return bool(names) and all(y == ALLOWED for y in names) and not any(isinstance(y, tuple) and y and y[0] == "param" and y != SELF for y in walk(x))
-    for g, pol in a.guards:
-        g = simp(g)
-        detail += ("" if pol else "not ") + show(g)[:150] + "; "
-        if not pol:
-            # not (<allowed list is non-empty> and not all(..))
-            parts = _flat_and(g)
-            tests = [x for x in parts if x[0] == "unop" and x[1] == "Not" and is_all_test(x[2])]
-            rest = [x for x in parts if x not in tests]
-            if len(tests) == 1 and rest and all(only_allowed(x) for x in rest):
-                dominated = True
-        # (not allowed) or all(..)
-        if pol and g[0] == "bool" and g[1] == "Or" and any(x == ("unop", "Not", ALLOWED) for x in g[2]) and any(is_all_test(x) for x in g[2]):
-            dominated = True
+    from ..valueflow import guards_satisfiable
+    detail = "; ".join(("" if pol else "not ") + show(simp(g))[:150] for g, pol in a.guards)
+    # the append must be unreachable when the allowed list is non-empty and the all(..) test fails -- whatever the spelling of the
+    # conditions that guard it.  The all-test atom is located by shape, the emptiness test is the truthiness of the list itself.
+    tests = [x for g, _ in a.guards for x in walk(simp(g)) if isinstance(x, tuple) and is_all_test(x)]
+    if tests:
+        fails = (tests[0], all_test(tests[0]) < 0)          # the polarity under which "some species is not allowed"
+        dominated = not guards_satisfiable(a.guards, [(ALLOWED, True), fails])
     ctx.check(dominated, "R2", "_add_reaction:filter dominates append", (NF, a.line),
               "a reaction is appended only if the allowed list is empty or all of its reactants and products are in it (Species membership)" if dominated else
               "the append is not dominated by `all(rp in self._allowed_species for rp in reactants + products)`: a reaction mentioning a disallowed species "
               "can enter, or spellings of one species (E / e-, another surface prefix) are compared by text instead of Species equality",
               expected="if self._allowed_species and not all([rp in self._allowed_species for rp in reaction.reactants + reaction.products]): skip", found=detail[:300])
     ok_skip = len(skip) == 1 and simp(skip[0].value[3][0]) == reac and \
-        any((p and any(x[0] == "unop" and x[1] == "Not" and is_all_test(x[2]) for x in _flat_and(simp(g)))) or (not p and is_all_test(simp(g))) for g, p in skip[0].guards)
+        bool(tests) and not guards_satisfiable(skip[0].guards, [(tests[0], all_test(tests[0]) > 0)]) and guards_satisfiable(skip[0].guards, [(ALLOWED, True), (tests[0], all_test(tests[0]) < 0)])
     ctx.check(ok_skip, "R2", "_add_reaction:rejected are remembered", (NF, skip[0].line if skip else fn.lineno),
               "a rejected reaction is recorded in _skipped_reactions (so a later change of the allowed list can re-admit it)")
     # cache updates use the appended reaction
